@@ -466,6 +466,63 @@ def optionsFromValue (v : JV) : Opts := clampOpts (rawOpts v)
 def clampOptsOld (o : Opts) : Opts := { clampOpts o with lineBytes := max 1 o.lineBytes }
 def optionsFromValueOld (v : JV) : Opts := clampOptsOld (rawOpts v)
 
+/-! ### the bits format function (interp.go bitsFormatFnFromOptions): a closure over a COPY of
+    the options it is given — what it captures is fixed at the moment of the call -/
+
+def bitsFormatNames : List String := ["md5", "hex", "base64", "truncate", "string", "snippet", "byte_array"]
+
+/-- the closure: the format and the Sizebase of the captured copy (only "snippet" reads it) -/
+structure BitsFormatFn where
+  format : String
+  sizebase : Int
+deriving Repr, BEq, DecidableEq
+
+def bitsFormatFnFromOptions (format : String) (o : Opts) : Outcome BitsFormatFn :=
+  if bitsFormatNames.contains format then .ok ⟨format, o.sizebase⟩ else .err "invalid bits format"
+
+/-- what OptionsFromValue returns: the clamped options AND the bits format closure -/
+structure Options where
+  o : Opts
+  fn : BitsFormatFn
+deriving Repr, BEq, DecidableEq
+
+/-- interp.go:1059-1082 in the order of the code: all clamps first, then the closure is made
+    from the clamped options -/
+def optionsFromValueFmt (format : String) (v : JV) : Outcome Options :=
+  let o := clampOpts (rawOpts v)
+  (bitsFormatFnFromOptions format o).bind fun fn => .ok ⟨o, fn⟩
+
+/-- the seeded change S-C13-2: the closure is made BEFORE the clamps, from the raw options -/
+def optionsFromValueFmtSwapped (format : String) (v : JV) : Outcome Options :=
+  let r := rawOpts v
+  (bitsFormatFnFromOptions format r).bind fun fn => .ok ⟨clampOpts r, fn⟩
+
+def basePrefix (base : Int) : String :=
+  if base == 2 then "0b" else if base == 8 then "0o" else if base == 16 then "0x" else ""
+
+def digitChar36 (d : Nat) : Char := "0123456789abcdefghijklmnopqrstuvwxyz".toList.getD d '?'
+
+def formatUintAux (fuel n base : Nat) (acc : List Char) : List Char :=
+  match fuel with
+  | 0 => acc
+  | fuel + 1 => if n < base then digitChar36 n :: acc else formatUintAux fuel (n / base) base (digitChar36 (n % base) :: acc)
+
+/-- strconv.FormatUint(n, base): panics for a base outside 2..36 -/
+def formatUint (n : Nat) (base : Int) : Outcome String :=
+  if base < 2 || base > 36 then .panic "strconv: illegal AppendInt/FormatInt base"
+  else .ok (String.ofList (formatUintAux (n + 1) n base.toNat []))
+
+/-- mathx.Bits.StringByteBits (num.go:63-68) -/
+def stringByteBits (bits : Nat) (base : Int) : Outcome String :=
+  (formatUint (bits / 8) base).bind fun bytes =>
+  if bits % 8 != 0 then (formatUint (bits % 8) base).bind fun rest => .ok (basePrefix base ++ bytes ++ "." ++ rest)
+  else .ok (basePrefix base ++ bytes)
+
+/-- running the closure on `bits` bits: "snippet" renders the size in the captured sizebase
+    (the result is the text between < and >), the other formats do no option arithmetic -/
+def BitsFormatFn.render (f : BitsFormatFn) (bits : Nat) : Outcome String :=
+  if f.format == "snippet" then stringByteBits bits f.sizebase else .ok "-"
+
 /-- strconv.FormatUint / FormatInt panic for a base outside 2..36 -/
 def formatBase (base : Int) : Outcome Unit :=
   if base < 2 || base > 36 then .panic "strconv: illegal AppendInt/FormatInt base" else .ok ()
